@@ -50,8 +50,14 @@ def eval_msg(name, ds_kind, max_pdu=16382):
         bad.append(("announce-mismatch", f"{name} with {ds_kind} data set: CommandDataSetType 0x{msg.command_set.CommandDataSetType:04X} but {data_pdvs} data-set PDVs sent"))
     rx = DIMSEMessage()
     done = False
-    for p in pdatas:
-        done = rx.decode_msg(p)
+    # (the sender's primitives are all produced before any is consumed, as when the provider thread
+    # transmits them after the sending thread has queued them)
+    try:
+        for p in pdatas:
+            done = rx.decode_msg(p)
+    except Exception as exc:  # noqa
+        bad.append(("receiver-raised", f"{name} with {ds_kind} data set: the receiver cannot decode what was sent: {type(exc).__name__}: {exc}"))
+        done = True
     if not done:
         bad.append(("receiver-incomplete", f"{name} with {ds_kind} data set: the receiver never completes the message"))
     return bad
